@@ -117,4 +117,38 @@ theorem zipWith_add_zero_mul (a z : List K) (h : a.length = z.length) :
       simp only [List.length_cons, Nat.add_right_cancel_iff] at h
       simp only [List.zipWith_cons_cons, ih z h]; simp
 
+theorem zipWith_add_zero_dark (a : List K) (n : Nat) (dt w : K) (h : a.length = n) :
+    List.zipWith (fun x d => x + d * dt * w) a (vzero n : List K) = a := by
+  induction a generalizing n with
+  | nil => simp
+  | cons x a ih =>
+    cases n with
+    | zero => simp at h
+    | succ n =>
+      simp only [List.length_cons, Nat.add_right_cancel_iff] at h
+      have := ih n h
+      simp only [vzero] at this
+      simp [vzero, List.replicate_succ, this]
+
+theorem accAdd_length (g : Geom) (acc : Option (List K)) (c : List K) (hc : c.length = g.npix)
+    (hl : ∀ a, acc = some a → a.length = g.npix) : (accAdd acc c).length = g.npix := by
+  cases h : acc with
+  | none => simpa [accAdd] using hc
+  | some b => simp [accAdd, vadd_length, hl b h, hc]
+
+theorem pStep_readOut_fst [DecidableEq K] (g : Geom) (pst : PSt K) :
+    (pStep g pst .readOut).1 = { pst with acc := none, clean := true } := by
+  simp only [pStep]; split <;> rfl
+
+theorem reads_eq_images (g : Geom) (st : St K) (ops : List (Op K)) :
+    reads g st ops = (images (run g st ops).2).map Obs.image := by
+  induction ops generalizing st with
+  | nil => rfl
+  | cons op ops ih =>
+    cases op with
+    | readOut => simp [reads, run_cons, step, readOut, images, ih]
+    | integrate p dt w =>
+      simp only [reads, run_cons, ih]
+      by_cases hp : p.length = g.ninput <;> simp [step, Detector.integrate, hp, images]
+
 end HcipyVerif.Detector
